@@ -41,10 +41,19 @@ RecsClause(exp, got) ==
   IF d = 0 THEN "" ELSE IF d > Len(exp) THEN "extra-record" ELSE IF d > Len(got) THEN "missing-record"
   ELSE "record-" \o RecField(exp[d], got[d]) \o "-differs"
 
+(* Upper bound for a logical line number (N10): every logical line ends in
+   an encoded LF.  When every codec the file names encodes LF with the byte
+   0x0A (all UTFs, ASCII supersets) that is the physical line count; with an
+   EBCDIC-like codec in play only "a line has at least one byte" remains. *)
+LfIsByte10(codec) ==
+  CASE codec.fam = "table" -> \E q \in 1..Len(NL(codec, "unix")) : NL(codec, "unix")[q] = 10
+    [] OTHER -> TRUE
+LineBound(c) ==
+  IF \A q \in 1..Len(c.cmap) : LfIsByte10(c.cmap[q].codec) THEN PhysLines(c.file) ELSE Len(c.file)
 LibraryFamilies == {"ok", "parse", "order", "content", "option", "unknown_option", "diffx"}
 Contract(c) ==
   IF c.end \notin {"done", "parse"} THEN "raised-" \o c.end
-  ELSE IF c.end = "parse" /\ (c.line < 0 \/ c.line > PhysLines(c.file)) THEN "error-line-outside-input"
+  ELSE IF c.end = "parse" /\ (c.line < 0 \/ c.line > LineBound(c)) THEN "error-line-outside-input"
   ELSE IF c.end = "parse" /\ ~c.msgok THEN "message-disagrees-with-line-column"
   ELSE IF c.dom.end \notin LibraryFamilies THEN "object-model-load-raised-" \o c.dom.end
   ELSE IF ~c.dom.closed THEN "stream-not-closed-after-load(" \o c.dom.end \o ")"
